@@ -758,6 +758,12 @@ func (fr *frame) typeAssert(x *ssa.TypeAssert, st *State) Value {
 				out[i] = Ite(ok, rt[i], zt[i])
 			}
 			res, _ = res.rebuild(out)
+			if _, isPtr := under(T).(*types.Pointer); isPtr && len(out) == 1 {
+				if fx.commaOk == nil {
+					fx.commaOk = map[Term]Term{}
+				}
+				fx.commaOk[out[0]] = ok
+			}
 		}
 		return Value{Kind: KTuple, Elems: []Value{res, BoolV(ok)}, Typ: x.Type()}
 	}
